@@ -59,13 +59,13 @@ var kindPredicates = map[string]string{"IsArray": "array", "IsMap": "map", "IsSt
 	"IsIntersection": "intersection", "IsComposableSlot": "composable_slot", "IsConstantRef": "constant_ref", "IsConcreteScalar": "scalar(concrete)", "IsAny": "scalar(any)"}
 
 type dispatchSite struct {
-	fn        *types.Func
-	pkg       *packages.Package
-	pos       token.Pos
-	text      string
-	domain    string // "Kind" or "ScalarKind" or "?"
-	handled   map[string]bool
-	via       string
+	fn      *types.Func
+	pkg     *packages.Package
+	pos     token.Pos
+	text    string
+	domain  string // "Kind" or "ScalarKind" or "?"
+	handled map[string]bool
+	via     string
 }
 
 func c02FindPlaceholders(ctx *Ctx) []dispatchSite {
@@ -304,19 +304,19 @@ var c02Sites = map[string]c02Site{
 	"internal/jennies/golang.typeFormatter.formatTypeDeclaration placeholder unhandled type def kind: %s": {typePosition: true, allowed: map[string]string{
 		"composable_slot": "the text is not valid Go: goimports fails and the run returns an error (skeleton/go-postprocess holds the formatter registered)",
 		"constant_ref":    "the text is not valid Go: goimports fails and the run returns an error (demonstrated with CUE `TheLevel: Level & \"high\"`)"}},
-	"internal/jennies/golang.typeFormatter.doFormatType placeholder unknown": {typePosition: true},
-	"internal/jennies/java.typeFormatter.formatFieldType placeholder unknown": {typePosition: true},
-	"internal/jennies/java.typeFormatter.formatMap placeholder unknown":       {typePosition: true},
-	"internal/jennies/java.formatScalarType placeholder unknown":              {},
+	"internal/jennies/golang.typeFormatter.doFormatType placeholder unknown":    {typePosition: true},
+	"internal/jennies/java.typeFormatter.formatFieldType placeholder unknown":   {typePosition: true},
+	"internal/jennies/java.typeFormatter.formatMap placeholder unknown":         {typePosition: true},
+	"internal/jennies/java.formatScalarType placeholder unknown":                {},
 	"internal/jennies/java.typeFormatter.emptyValueForType placeholder unknown": {},
 	"internal/jennies/java.typeFormatter.emptyValueForType placeholder unknown #2": {typePosition: true, allowed: map[string]string{
 		"composable_slot": "only called for the fields of a struct default given as a JSON object (formatReferenceDefaults); a slot has no JSON default in any front-end",
 		"constant_ref":    "constant fields are assigned in the constructor and skipped by formatReferenceDefaults' callers",
 		"intersection":    "covered by the finding on formatFieldType: the field's type is already the placeholder"}},
 	"internal/jennies/java.typeFormatter.formatConstantReference placeholder unknown": {whole: constRefWhy},
-	"internal/jennies/java.typeFormatter.enumFromConstantRef placeholder unknown":    {whole: constRefWhy},
-	"internal/jennies/java.typeFormatter.enumFromConstantRef placeholder unknown #2": {whole: constRefWhy},
-	"internal/jennies/java.typeFormatter.enumFromConstantRef placeholder unknown #3": {whole: constRefWhy},
+	"internal/jennies/java.typeFormatter.enumFromConstantRef placeholder unknown":     {whole: constRefWhy},
+	"internal/jennies/java.typeFormatter.enumFromConstantRef placeholder unknown #2":  {whole: constRefWhy},
+	"internal/jennies/java.typeFormatter.enumFromConstantRef placeholder unknown #3":  {whole: constRefWhy},
 	"internal/jennies/php.disjunctionCaseForType placeholder /* unhandled scalar type */": {allowed: map[string]string{
 		"any": "a branch of type any makes the union undiscriminated: DisjunctionInferMapping gives it no mapping and convertDisjunctionFunc is not generated for it"}},
 	"internal/jennies/php.disjunctionCaseForType placeholder /* unhandled type */": {typePosition: true, allowed: map[string]string{
@@ -326,27 +326,27 @@ var c02Sites = map[string]c02Site{
 		"intersection":    "same: not a branch kind of a converted union"}},
 	"internal/jennies/php.defaultValueForTypeRec placeholder unknown": {typePosition: true, allowed: map[string]string{
 		"constant_ref": "constant-reference fields are assigned their constant in the constructor before any default is computed"}},
-	"internal/jennies/php.defaultValueForScalar placeholder unknown":  {},
+	"internal/jennies/php.defaultValueForScalar placeholder unknown":                                   {},
 	"internal/jennies/php.typeFormatter.formatTypeDeclaration placeholder unhandled type def kind: %s": {whole: "the value is only used by the API-reference collector; RawTypes.formatObject returns an error for the same kinds (dispatch checked on that error: rule kinds/object-dispatch-error)"},
-	"internal/jennies/php.typeFormatter.doFormatType placeholder unknown": {typePosition: true},
-	"internal/jennies/php.typeFormatter.formatConstantReference placeholder unknown":    {whole: constRefWhy},
-	"internal/jennies/php.typeFormatter.formatConstantReference placeholder unknown #2": {whole: constRefWhy},
-	"internal/jennies/php.typeFormatter.enumFromConstantRef placeholder unknown":        {whole: constRefWhy},
-	"internal/jennies/php.typeFormatter.enumFromConstantRef placeholder unknown #2":     {whole: constRefWhy},
+	"internal/jennies/php.typeFormatter.doFormatType placeholder unknown":                              {typePosition: true},
+	"internal/jennies/php.typeFormatter.formatConstantReference placeholder unknown":                   {whole: constRefWhy},
+	"internal/jennies/php.typeFormatter.formatConstantReference placeholder unknown #2":                {whole: constRefWhy},
+	"internal/jennies/php.typeFormatter.enumFromConstantRef placeholder unknown":                       {whole: constRefWhy},
+	"internal/jennies/php.typeFormatter.enumFromConstantRef placeholder unknown #2":                    {whole: constRefWhy},
 	"internal/jennies/python.defaultValueForTypeRec placeholder unknown": {typePosition: true, allowed: map[string]string{
 		"constant_ref": "constant-reference fields are assigned their constant in __init__ before any default is computed",
 		"intersection": "typeFormatter.formatType panics on intersections first (C04 known finding)"}},
-	"internal/jennies/python.defaultValueForScalar placeholder unknown":  {},
-	"internal/jennies/python.typeFormatter.formatType placeholder unknown": {typePosition: true},
-	"internal/jennies/python.typeFormatter.formatConstantReference placeholder unknown":    {whole: constRefWhy},
-	"internal/jennies/python.typeFormatter.formatConstantReference placeholder unknown #2": {whole: constRefWhy},
-	"internal/jennies/typescript.RawTypes.defaultValueForType placeholder unknown": {typePosition: true},
-	"internal/jennies/typescript.defaultValueForScalar placeholder unknown":        {},
-	"internal/jennies/typescript.RawTypes.defaultValueForConstantReferences placeholder unknown":    {whole: constRefWhy},
-	"internal/jennies/typescript.RawTypes.defaultValueForConstantReferences placeholder unknown #2": {whole: constRefWhy},
+	"internal/jennies/python.defaultValueForScalar placeholder unknown":                                        {},
+	"internal/jennies/python.typeFormatter.formatType placeholder unknown":                                     {typePosition: true},
+	"internal/jennies/python.typeFormatter.formatConstantReference placeholder unknown":                        {whole: constRefWhy},
+	"internal/jennies/python.typeFormatter.formatConstantReference placeholder unknown #2":                     {whole: constRefWhy},
+	"internal/jennies/typescript.RawTypes.defaultValueForType placeholder unknown":                             {typePosition: true},
+	"internal/jennies/typescript.defaultValueForScalar placeholder unknown":                                    {},
+	"internal/jennies/typescript.RawTypes.defaultValueForConstantReferences placeholder unknown":               {whole: constRefWhy},
+	"internal/jennies/typescript.RawTypes.defaultValueForConstantReferences placeholder unknown #2":            {whole: constRefWhy},
 	"internal/jennies/typescript.typeFormatter.formatTypeDeclaration placeholder unhandled object of type: %s": {},
-	"internal/jennies/typescript.typeFormatter.formatConstantReferences placeholder unknown":    {whole: constRefWhy},
-	"internal/jennies/typescript.typeFormatter.formatConstantReferences placeholder unknown #2": {whole: constRefWhy},
+	"internal/jennies/typescript.typeFormatter.formatConstantReferences placeholder unknown":                   {whole: constRefWhy},
+	"internal/jennies/typescript.typeFormatter.formatConstantReferences placeholder unknown #2":                {whole: constRefWhy},
 }
 
 func c02Dispatch(ctx *Ctx, r *Report) {
